@@ -278,6 +278,12 @@ func sxgMut(args []string) error {
 				x := cloneEx(e)
 				f(x)
 				ctx.emitVer(x, kc, mid, 0, signed, false, nil, false, false, note)
+				// ... and of an object that has ALREADY been verified (successfully, at the same instant) before the edit: what an
+				// earlier Verify left in the object must not vouch for the fields it holds now
+				z := cloneEx(e)
+				doVerify(z, kc, mid, 0, "")
+				f(z)
+				ctx.emitVer(z, kc, mid, 0, signed, false, nil, false, false, note+" (object verified once before the edit)")
 				if !fromFileErr {
 					y := cloneEx(fromFile)
 					applies := true
